@@ -480,8 +480,12 @@ def e6_relink(F, R, M, pop_id, rule='E6'):
     # only the chain-walking loop (the one containing a relink store) is left to the shape rule above
     headers = set(h for h, body in loops if any(r_ in body for r_ in relinks))
     for n, fld in fh_stores:
-        r = sg.reach_fwd(list(n.succ), avoid=set(relinks) | headers)
-        ex = [e for e in sg.exits if e in r]
+        av = set(relinks) | headers
+        r = sg.reach_fwd(list(n.succ), avoid=av)
+        # a path only counts as a release path if it actually releases something (unshares a buffer): without the `alloc`
+        # feature the indirect arm is empty and unreachable (no descriptor ever carries INDIRECT)
+        acts = [c.id for c in sg.calls(lambda d: d.get('trait') == HAL and d.get('method') == 'unshare') if c.id in r]
+        ex = [e for e in sg.exits if any(e in sg.reach_fwd(list(sg.nodes[a].succ), avoid=av) for a in acts)]
         R.check(not ex, rule, '%s:relink-on-every-release-path' % pop_id, site(sg, n),
                 'after `%s` is redirected to the released chain every loop-free path stores the saved old head into a released descriptor\'s link (%d relink stores)' % (fld, len(relinks)),
                 'a release path sets the free-list head `%s` to the released chain but never links that chain to the previous free list (no store of the saved head '
